@@ -449,6 +449,9 @@ func evalChain(p ast.Position, scope *stateful.Scope, stck *stack) error {
 			}
 		}
 		if describer.HasProperty(name) {
+			if rd, ok := describer.(*ReflectionDescriber); ok && !rd.hasReadableProperty(name) {
+				return errorf(p, "property %s of object %T is set by a method and cannot be read", name, l)
+			}
 			stck.Push(describer.Property(name))
 		} else {
 			return errorf(p, "object %T has no property %s", l, name)
@@ -805,6 +808,13 @@ func (r *ReflectionDescriber) HasProperty(name string) bool {
 		return ok
 	}
 	_, ok = r.properties[name]
+	return ok
+}
+
+// hasReadableProperty reports whether the property is backed by a field.
+// Properties set by property methods cannot be read.
+func (r *ReflectionDescriber) hasReadableProperty(name string) bool {
+	_, ok := r.properties[capitalizeFirst(name)]
 	return ok
 }
 
